@@ -29,6 +29,10 @@ def run(ctx):
                 k = q["mode"] + ":" + q["outcome"]["k"]
                 modes[k] = modes.get(k, 0) + 1
     ctx.extra["constant_claims_checked"] = claims
+    if claims == 0:
+        # soundness holds trivially when the analysis reports nothing: not a violation, but say so loudly
+        print("NOTE: property=C13 the analysis reported no constant in %d programs: the soundness check is vacuous" % ctx.traces)
+        ctx.extra["vacuous"] = True
     ctx.extra["eval_claims_checked"] = evals
     ctx.extra["programs_by_mode_and_outcome"] = modes
     ctx.assumptions += ["ILSem is the semantics of the IL (bound to the executor by C07)",
